@@ -92,8 +92,12 @@ pub fn subs() -> Vec<Box<dyn AnySub>> {
 
 
 /// Put the plan on the carrier the duplicate kind is about and keep the duplicated header out of the signed list.
-pub fn make_case(mut plan: Plan, k: u16, decoy_first: bool, before_signing: bool, in_body: bool, decoy_delta_s: i16) -> DupCase {
-                    let kind = KINDS[pick_idx(k, KINDS.len())];
+pub fn make_case(plan: Plan, k: u16, decoy_first: bool, before_signing: bool, in_body: bool, decoy_delta_s: i16) -> DupCase {
+    make_case_kind(plan, pick_idx(k, KINDS.len()), decoy_first, before_signing, in_body, decoy_delta_s)
+}
+
+pub fn make_case_kind(mut plan: Plan, kind_index: usize, decoy_first: bool, before_signing: bool, in_body: bool, decoy_delta_s: i16) -> DupCase {
+                    let kind = KINDS[kind_index % KINDS.len()];
                     use DupKind::*;
                     // put the plan on the carrier the duplicate kind is about
                     let want_query = matches!(kind, QCredential | QDate | QSignedHeaders | QSignature | QToken | QAlgorithm);
